@@ -436,4 +436,57 @@ def sampled_tables(rec):
                      '(last time on / off a dose time, before the first dose); dosable pure-Python mechanistic model; distinct by (model, regimen, times)', exhaustive=True)
 
 
-TASKS = [('protocol', protocol_event), ('surgery', surgery), ('table', table_events), ('sampled-tables', sampled_tables)]
+def dataset_regimens(rec):
+    """bounded run-time contract: the regimen that each individual's likelihood *simulates with* (read from the mechanistic model the controller
+    hands to that likelihood) is exactly that individual's dose rows (time, amount, duration; 0.01 by default) -- individual posteriors and
+    the individual likelihoods of a hierarchical posterior; datasets from the C14 generator (interleaved dose rows, individuals without doses,
+    default durations, missing values, integer / string IDs)"""
+    def events_of(ll):
+        mm = ll.get_submodels()['Mechanistic model']
+        reg = mm.dosing_regimen()
+        return [] if reg is None else sorted((float(e.start()), float(e.duration()), float(e.level() * e.duration()), float(e.period()), float(e.multiplier())) for e in reg.events())
+
+    def one(seed_):
+        import chi as real
+        import pints
+        import warnings
+        from contracts import c14
+        rng = np.random.default_rng(1000 + seed_)
+        gt = c14.make_case(rng, pop=('none' if seed_ % 2 == 0 else 'gauss+pooled'), mapped='both', fixed=False, with_junk=bool(seed_ % 3 == 0))
+        if seed_ % 4 == 1 and len(gt['ids']) > 1:
+            gt['ind'][1]['doses'] = []                    # an individual without any dose row between dosed ones
+        df, K, names = c14.frame_of(gt, rng)
+        Toy = c14.toy_model(real)
+        ctrl = real.ProblemModellingController(Toy(), [real.GaussianErrorModel(), real.GaussianErrorModel()])
+        with warnings.catch_warnings():
+            warnings.simplefilter('ignore')
+            ctrl.set_data(df, output_observable_dict=({('o%d' % o): names[o] for o in (0, 1)}), id_key=K['id'], time_key=K['time'], obs_key=K['obs'], value_key=K['val'], dose_key=K['dose'], dose_duration_key=K['dur'])
+            pop, _ = c14.build_population(real, gt, 4)
+            if pop is not None:
+                ctrl.set_population_model(pop)
+            ctrl.set_log_prior(pints.ComposedLogPrior(*[pints.GaussianLogPrior(1.0, 3.0) for _ in range(ctrl.get_n_parameters())]))
+            want = {str(id_): sorted((st, (0.01 if d is None else d), a, 0.0, 0.0) for (st, a, d) in gt['ind'][i_]['doses']) for i_, id_ in enumerate(gt['ids'])}
+            if pop is None:
+                lls = {}
+                posts = [ctrl.get_log_posterior(individual=str(id_)) for id_ in gt['ids']]        # all built first: a later one must not change an earlier one
+                for id_, post in zip(gt['ids'], posts):
+                    lls[str(id_)] = post.get_log_likelihood()
+            else:
+                hll = ctrl.get_log_posterior().get_log_likelihood()
+                lls = {str(ll.get_id()): ll for ll in hll._log_likelihoods}
+        for id_, w_ in want.items():
+            if id_ not in lls:
+                return 'dataset %d: no likelihood for individual %r' % (seed_, id_)
+            got = events_of(lls[id_])
+            if len(got) != len(w_) or (w_ and not np.allclose(np.array(got), np.array(w_))):
+                return 'dataset %d (%s): the likelihood of individual %r simulates with the dose events (start, duration, amount, period, multiplier) %s, its dose rows are %s' % (
+                    seed_, c14.describe(gt), id_, got, w_)
+        return None
+    n = 24 if rec.tier == 'quick' else 120
+    rec.native_check('dataset.regimens', ['chi._problems.ProblemModellingController.set_data', 'chi._problems.ProblemModellingController._extract_dosing_regimens', 'chi._problems.ProblemModellingController.get_log_posterior',
+                                          'chi._problems.ProblemModellingController._create_log_likelihood'], list(range(n)), one,
+                     '%d generated datasets (1-4 individuals, 0-3 dose rows each incl. individuals without doses, default and explicit durations, interleaved rows, missing values, junk columns, integer / string / float / mixed IDs), '
+                     'with and without population model; dosable pure-Python mechanistic model; distinct by dataset seed' % n)
+
+
+TASKS = [('protocol', protocol_event), ('surgery', surgery), ('table', table_events), ('sampled-tables', sampled_tables), ('dataset-regimens', dataset_regimens)]
